@@ -1169,6 +1169,32 @@ pub fn validate_tree(fs: &SimFs, dirs: &[DirSpec]) -> Vec<(&'static str, String)
     out
 }
 
+/// errnos a real kernel can plausibly return for each call kind
+pub fn errnos_for(kind: K, creating: bool) -> Vec<i32> {
+    use libc::*;
+    match kind {
+        K::Open | K::OpenTmp | K::Opendir => {
+            let mut v = vec![EIO, EACCES, EMFILE, ENFILE, ENOMEM, ESTALE, EINTR];
+            if creating {
+                v.extend([ENOSPC, EDQUOT]);
+            }
+            v
+        }
+        K::Read | K::Readdir => vec![EIO, ESTALE, EINTR],
+        K::Write => vec![EIO, ENOSPC, EDQUOT, EINTR],
+        K::Fsync | K::Fdatasync => vec![EIO, ENOSPC, EDQUOT],
+        K::Close | K::Closedir => vec![EIO, ENOSPC, EINTR],
+        K::Stat | K::Lstat | K::Fstat | K::FstatAt => vec![EIO, EACCES, ESTALE, ENOMEM],
+        K::Chmod | K::Fchmod | K::Utimens | K::Futimens => vec![EIO, EPERM, EACCES, EROFS, ESTALE],
+        K::Rename => vec![EIO, EACCES, ENOSPC, EDQUOT, EXDEV, ESTALE, EROFS],
+        K::Link => vec![EIO, EACCES, ENOSPC, EDQUOT, EXDEV, EMLINK, ESTALE, EROFS],
+        K::Unlink | K::Rmdir => vec![EIO, EACCES, EPERM, EROFS, ESTALE],
+        K::Mkdir => vec![EIO, EACCES, ENOSPC, EDQUOT, EMLINK, EROFS],
+        K::Truncate => vec![EIO, ENOSPC],
+        K::Seek | K::Lock => vec![],
+    }
+}
+
 pub fn canon_of(p: &Path) -> String {
     p.to_string_lossy().to_string()
 }
